@@ -150,6 +150,36 @@ fn run(ctx: &mut Ctx) {
             }
         }
     }
+    // what the tag area holds has no bearing on load
+    ctx.bound("contents", "headers of 16..=56 bytes with valid magic, length and checksum, both architectures, whose tag area is every sequence of 8-byte images over {end tag, module-align tag, zeros, FF x 8, a (console, size 12) tag header, a (request, size 0xFFFFFFFF) tag header}: tags behind an end tag, no end tag, sizes that leave the header - load succeeds on all of them");
+    {
+        const IMG: [[u8; 8]; 6] = [[0, 0, 0, 0, 8, 0, 0, 0], [6, 0, 0, 0, 8, 0, 0, 0], [0; 8], [0xFF; 8], [4, 0, 0, 0, 12, 0, 0, 0], [1, 0, 1, 0, 0xFF, 0xFF, 0xFF, 0xFF]];
+        let carena = Arena::new(2);
+        for slots in 0..=5usize {
+            for code in 0..6usize.pow(slots as u32) {
+                for arch in [0u32, 4] {
+                    let length = 16 + 8 * slots as u32;
+                    let describe = || J::obj().set("part", "contents").set("architecture", arch).set("length", length).set("tag_area_code_base_6", code);
+                    ctx.leaf(describe, |ctx| {
+                        let mut h = vec![0u8; length as usize];
+                        wr32(&mut h, 0, SPEC_MAGIC);
+                        wr32(&mut h, 4, arch);
+                        wr32(&mut h, 8, length);
+                        wr32(&mut h, 12, 0u32.wrapping_sub(SPEC_MAGIC).wrapping_sub(arch).wrapping_sub(length));
+                        for i in 0..slots {
+                            let sym = (code / 6usize.pow(i as u32)) % 6;
+                            h[16 + 8 * i..24 + 8 * i].copy_from_slice(&IMG[sym]);
+                        }
+                        carena.fill(0x5A);
+                        let p = carena.place_right(&h);
+                        observe(ctx, p, V::Ok, || format!("valid words, arch {}, length {}, tag area {:02x?}", arch, length, &h[16..]));
+                        ctx.state_direct();
+                        ctx.nontrivial();
+                    });
+                }
+            }
+        }
+    }
     verify_sweep(ctx);
     // ---------------- checksum law
     let full = !(ctx.quick() && ctx.dev_profile());
